@@ -94,8 +94,9 @@ TempoNear(f, bpms, tol) ==
 SvNear(f, svs, tol) ==
     LET ft == SortT([i \in 1..Cardinality(Svs(f)) |->
                  LET j == CHOOSE j \in Svs(f) : Cardinality({ q \in Svs(f) : q < j }) = i - 1 IN
-                 [t |-> f.tps[j].t, key |-> 0 - f.tps[j].code, tp |-> f.tps[j]]])
-        cs == SortT([i \in DOMAIN svs |-> [t |-> svs[i].t, key |-> 0 - svs[i].m, s |-> svs[i]]])
+                 \* points at one time are ordered by the multiplier the code denotes (codes of either sign)
+                 [t |-> f.tps[j].t, key |-> IF f.tps[j].code = 0 THEN 0 ELSE (0 - 100000000) \div f.tps[j].code, tp |-> f.tps[j]]])
+        cs == SortT([i \in DOMAIN svs |-> [t |-> svs[i].t, key |-> svs[i].m, s |-> svs[i]]])
     IN  /\ Len(ft) = Len(cs)
         /\ \A i \in DOMAIN ft :
              /\ Abs(ft[i].t - cs[i].t) <= tol
